@@ -264,6 +264,35 @@ func cmdCheck(args []string) int {
 	rs := runProperty(e, pc, findings)
 	// structural checks
 	for _, sc := range pc.Structural {
+		if strings.HasPrefix(sc, "shared-writes|") {
+			// one obligation per offending (function, field) pair, so that a recorded finding suppresses exactly that pair
+			offenders, scanned, serr := e.sharedWrites(sc)
+			head := strings.Join(strings.Split(sc, "|")[:3], "|")
+			add := func(name string, ok bool, detail string) {
+				rs.required++
+				for _, f := range findings {
+					if f.Kind == "finding" && f.Property == id && f.Obl == name {
+						if !ok {
+							rs.known = append(rs.known, name+" "+f.Text)
+						}
+						rs.required--
+						return
+					}
+				}
+				rs.obls = append(rs.obls, evObl{name, "structural", map[bool]string{true: "discharged", false: "failed"}[ok], "ssa-scan", 0})
+				if ok {
+					rs.discharged++
+					rs.bySolver["ssa-scan"]++
+				} else {
+					rs.failures = append(rs.failures, &OblResult{Obl: &Obl{Name: name, Kind: "structural"}, Status: "failed", Raw: detail, Solver: "ssa-scan"})
+				}
+			}
+			add("structural:"+head+"#scan", serr == "" && scanned > 0, fmt.Sprintf("%s (writes scanned: %d)", serr, scanned))
+			for _, o := range offenders {
+				add("structural:"+head+"#"+o, false, "write to request-shared state outside set-up code, without the object's lock: "+o)
+			}
+			continue
+		}
 		ok, detail := e.structural(sc)
 		rs.required++
 		name := "structural:" + sc
